@@ -561,6 +561,9 @@ func mk() *T { return &T{} }
 func mkD() *D { return &D{} }
 func mkY(y int) *T { return &T{Y: y} }
 func sum(t *T) int { return t.X*100 + t.Y }
+type AN struct { V any; E error; K int }
+func mkAN() *AN { return &AN{K: 2} }
+func readAN(a *AN) string { if a.V == nil && a.E == nil { return "nil nil" }; return "set" }
 type N struct { V int }
 var keep = &N{V: 4}
 func mkN(v int) *N { return &N{V: v} }`); o.Failed() {
@@ -658,6 +661,26 @@ func mkN(v int) *N { return &N{V: v} }`); o.Failed() {
 		}
 		r7 := m.Call("main.viaScript", 1, a)
 		expect("script call of an added method on an old instance", fmt.Sprintf("%v|%s", r7.Rets, r7.Err), fmt.Sprintf("[%d]|", (x+n)*100+nExtra-1+x+n))
+		// fields of interface type that hold nil are fields all the same: read as nil by name, from host and script
+		for _, how := range []string{"host", "script"} {
+			var an goatlang.Value
+			if how == "host" {
+				an = goatlang.NewStruct(m.VM.Get("main.AN"), []goatlang.Value{S("K"), I(2)})
+			} else if rets, err := m.VM.Call("main.mkAN", 1); err == nil && len(rets) == 1 {
+				an = rets[0]
+			} else {
+				what = fmt.Sprint("mkAN failed: ", err)
+				return
+			}
+			for round := 0; round < 2; round++ {
+				expect(how+"-made instance: an any-typed field holding nil, read by name", fmt.Sprintf("%v %v %s", an.GetAttr("V").IsNil(), an.GetAttr("E").IsNil(), str(an.GetAttr("K"))), "true true 2")
+				ra := m.Call("main.readAN", 1, an)
+				expect(how+"-made instance: the script reads its nil interface fields", fmt.Sprintf("%v|%s", ra.Rets, ra.Err), "[nil nil]|")
+				an.SetAttr("V", I(7))
+				expect(how+"-made instance: the any-typed field after a store", str(an.GetAttr("V")), "7")
+				an.SetAttr("V", goatlang.Nil())
+			}
+		}
 		// a type that had no method when its instances were made gets its first methods from a later Eval
 		nBase := m.VM.Get("main.N")
 		hostN := goatlang.NewStruct(nBase, []goatlang.Value{S("V"), I(6)})
